@@ -7,7 +7,8 @@ Requests (felts as hex without prefix, bit strings over `0`/`1`, `-` = empty):
 
 * `vL <cfg> <root> <keybits> <node>*` — `trie.VerifyProof` on a proof node set
 * `v2 <cfg> <root> <keybits> <node>*` — `trie2.VerifyProof`;
-  `<cfg>` = four digits `<trustCache><earlyValue><zeroRoot><walkCollapsed>` (`Cfg`), `0011` = the strict verifier
+  `<cfg>` = five digits `<trustCache><earlyValue><zeroRoot><walkCollapsed><checkKey>` (`Cfg`), `00111` = the strict
+  verifier; `<keybits>` may be prefixed with `+`: the key felt is then `2^height +` the bits' value
 
 `<node>` = `B:<sethash>:<child>:<child>:<cache>:<h2>` or `E:<sethash>:<pathbits>:<child>:<cache>:<h2>`
 where `<sethash>` is the key under which the node sits in the set, `<child>` = `h<felt>` (hash
@@ -89,6 +90,7 @@ def showRes : Res Nat → String
   | .mismatch => "err:mismatch"
   | .keyLen => "err:keylen"
   | .earlyValue => "err:earlyvalue"
+  | .badKey => "err:badkey"
   | .fuel => "err:fuel"
 
 def showRRes : RRes → String
@@ -96,11 +98,17 @@ def showRRes : RRes → String
   | .ok false => "ok 0"
   | .err => "err"
 
+/-- a key: `<bits>` = the felt with these bits (height = number of bits), `+<bits>` = that felt + 2^height -/
+def parseKey (s : String) : Option (Nat × Nat) :=
+  match s.toList with
+  | '+' :: rest => (parseBits (String.ofList rest)).map (fun p => (p.length, 2 ^ p.length + pathVal p))
+  | _ => (parseBits s).map (fun p => (p.length, pathVal p))
+
 def parseCfg (s : String) : Option Cfg :=
   match s.toList with
-  | [a, b, c, d] =>
-    if [a, b, c, d].all (fun x => x == '0' || x == '1') then
-      some ⟨a == '1', b == '1', c == '1', d == '1'⟩
+  | [a, b, c, d, e] =>
+    if [a, b, c, d, e].all (fun x => x == '0' || x == '1') then
+      some ⟨a == '1', b == '1', c == '1', d == '1', e == '1'⟩
     else none
   | _ => none
 
@@ -159,14 +167,14 @@ def parseRCfg (s : String) : Option RCfg :=
 def step (s : Unit) (line : String) : Unit × String :=
   match words line with
   | "vL" :: cfg :: root :: key :: nodes =>
-    match parseCfg cfg, hexToNat? root, parseBits key, parseNodes nodes with
-    | some cfg, some root, some key, some (ps, tbl) =>
-      (s, showRes (verifyL (tableAlg tbl) cfg root key ps))
+    match parseCfg cfg, hexToNat? root, parseKey key, parseNodes nodes with
+    | some cfg, some root, some (h, key), some (ps, tbl) =>
+      (s, showRes (verifyLFelt (tableAlg tbl) cfg h root key ps))
     | _, _, _, _ => (s, "bad-op")
   | "v2" :: cfg :: root :: key :: nodes =>
-    match parseCfg cfg, hexToNat? root, parseBits key, parseNodes nodes with
-    | some cfg, some root, some key, some (ps, tbl) =>
-      (s, showRes (verify2 (tableAlg tbl) cfg root key ps))
+    match parseCfg cfg, hexToNat? root, parseKey key, parseNodes nodes with
+    | some cfg, some root, some (h, key), some (ps, tbl) =>
+      (s, showRes (verify2Felt (tableAlg tbl) cfg h root key ps))
     | _, _, _, _ => (s, "bad-op")
   | "r2" :: cfg :: "single" :: root :: key :: value :: nodes =>
     match parseRCfg cfg, hexToNat? root, parseBits key, hexToNat? value, parseNodes nodes with
@@ -193,7 +201,7 @@ def step (s : Unit) (line : String) : Unit × String :=
     | _, _, _, _, _, _ => (s, "bad-op")
   | "pv" :: legacy :: cached :: height :: key :: rest =>
     let (kvToks, factToks) := splitAtBar rest
-    match parseCfg (legacy ++ cached ++ "00"), height.toNat?, parseBits key, parseAll parseKV kvToks,
+    match parseCfg (legacy ++ cached ++ "000"), height.toNat?, parseBits key, parseAll parseKV kvToks,
         parseAll parseFact factToks with
     | some f, some h, some key, some kvs, some tbl =>
       let A := tableAlg tbl
